@@ -46,6 +46,9 @@ type Case struct {
 	// EmptyAnn: every annotations member that is not a placed feature is present but empty (an
 	// object without annotations uses no annotation feature)
 	EmptyAnn bool `json:"annotations_present_but_empty_elsewhere,omitempty"`
+	// Nulls: every mounts / deviceNodes list starts and ends with a null entry (a Spec built in
+	// memory, or `- null` in a document): a null entry uses no feature and hides none behind it
+	Nulls bool `json:"null_entries_around_every_list,omitempty"`
 }
 
 func editsWith(c Case, pos int) specs.ContainerEdits {
@@ -64,6 +67,10 @@ func editsWith(c Case, pos int) specs.ContainerEdits {
 		dn.HostPath = []string{"/dev/y", "/", "relative", "/dev/x"}[pos%4]
 	}
 	e.DeviceNodes = append(e.DeviceNodes, dn)
+	if c.Nulls {
+		e.Mounts = append(append([]*specs.Mount{nil}, e.Mounts...), nil)
+		e.DeviceNodes = append(append([]*specs.DeviceNode{nil}, e.DeviceNodes...), nil)
+	}
 	if has("intelRdt") {
 		e.IntelRdt = []*specs.IntelRdt{{ClosID: "c"}, {EnableCMT: true}, {L3CacheSchema: "L3:0=f"}, {}}[pos%4]
 	}
@@ -200,6 +207,9 @@ func eval(c Case) hx.Result {
 			*s = *build(c)
 			pre = "object-edited-in-place:"
 		}
+		if c.Nulls {
+			pre += "null-list-entries:"
+		}
 		got, err := specs.MinimumRequiredVersion(s)
 		if err != nil || got != want {
 			return hx.Result{Outcome: "FAIL", Nontrivial: true, Fail: &hx.Failure{Rank: rank(c),
@@ -324,14 +334,14 @@ func main() {
 	r.Rule = "every assignment of the 8 version-gated features to position sets (spec level / device k of n, n<=3; each feature at " +
 		map[bool]string{true: "<=2 positions", false: "<=1 position (n=3) or <=2 (n<=2)"}[r.Thorough()] + ") x every device permutation x " +
 		fmt.Sprintf("%d declared version strings; each edits block also carries an untyped mount and a host-path-less device node as controls, and in half of the cases every annotations member that is not a placed feature is present but empty; ", len(declaredDomain)) +
-		"then histories of two contents held by ONE Spec object (asked, overwritten in place, asked again): all ordered pairs of the single-feature cases and every third case after its neighbour; " +
+		"then histories of two contents held by ONE Spec object (asked, overwritten in place, asked again): all ordered pairs of the single-feature cases and every third case after its neighbour; every third case also with a null entry at the start and at the end of every mounts / deviceNodes list; " +
 		"oracle = literal feature->version table, maximum by semver. Cases distinct by construction; non-trivial = at least one feature used"
 	r.Assumptions = []string{"v-prefixed declared versions are only checked for absence of panics (statement does not define them)", "more than 3 devices are not enumerated"}
 	record := func(l *hx.Local, c Case) {
 		res := eval(c)
 		l.Record(res, func() any { return map[string]any{"devices": c.N, "order": c.Perm, "features": describe(c), "result": res.Outcome} })
 	}
-	var nCases, nHist atomic.Int64
+	var nCases, nHist, nNull atomic.Int64
 	for _, sp := range []struct {
 		n    int
 		full bool
@@ -347,6 +357,11 @@ func main() {
 				record(l, c)
 				nHist.Add(1)
 			}
+			if i%3 == 2 {
+				c.Nulls = true
+				record(l, c)
+				nNull.Add(1)
+			}
 		})
 	}
 	r.ParallelL(int64(len(small)*len(small)), func(k int64, l *hx.Local) {
@@ -356,7 +371,8 @@ func main() {
 		nHist.Add(1)
 	})
 	r.Extra["same_object_histories"] = nHist.Load()
+	r.Extra["cases_with_null_list_entries"] = nNull.Load()
 	r.Extra["declared_versions_per_case"] = len(declaredDomain)
-	r.Extra["version_validations"] = (nCases.Load() + nHist.Load()) * int64(len(declaredDomain))
+	r.Extra["version_validations"] = (nCases.Load() + nHist.Load() + nNull.Load()) * int64(len(declaredDomain))
 	r.Finish()
 }
